@@ -56,10 +56,11 @@ class Check(FormulaCheck):
         q = tier == 'quick'
         specs = [{'campaign': 'sentinels'}]
         for i in range(16):
-            specs.append({'campaign': 'rounding', 'seed': seed, 'n': 900 if q else 60000, 'i': i})
-            specs.append({'campaign': 'integer', 'seed': seed, 'n': 700 if q else 50000, 'i': i})
-            specs.append({'campaign': 'radix', 'seed': seed, 'n': 1500 if q else 80000, 'i': i})
+            specs.append({'campaign': 'rounding', 'seed': seed, 'n': 2200 if q else 60000, 'i': i})
+            specs.append({'campaign': 'integer', 'seed': seed, 'n': 1800 if q else 50000, 'i': i})
+            specs.append({'campaign': 'radix', 'seed': seed, 'n': 4000 if q else 80000, 'i': i})
             specs.append({'campaign': 'roman', 'lo': 1 + i * 250, 'hi': min(4000, 1 + (i + 1) * 250)})
+        specs.append({'campaign': 'powers'})
         for i in range(4 if q else 16):
             specs.append({'campaign': 'termination', 'seed': seed, 'n': 500 if q else 6000, 'i': i})
         return specs
@@ -201,6 +202,32 @@ class Check(FormulaCheck):
             rec.nt(('base', m, r))
             rec.sample({'n': n, 'radix': r, 'm': m})
 
+    def c_powers(self, spec, rec):
+        """every exact power r^k (and r^k - 1, r^k + 1) below 2^39 for every radix 2..36: where digit counts change"""
+        n = 0
+        for r in range(2, 37):
+            k = 0
+            while r ** k < HI40:
+                for m in (r ** k - 1, r ** k, r ** k + 1):
+                    if not (0 <= m < HI40):
+                        continue
+                    t = self.ev('BASE(v_n,v_r)', v_n=m, v_r=r)
+                    ok = isinstance(t, str) and not self.is_err(t) and t != '' and all(c in DIGS[:r] for c in t) and int(t, r) == m
+                    self.expect('C17/BASE-text:power-of-radix' + (':radix>10' if r > 10 else ''), ok, n=m, radix=r, got=t)
+                    d = self.ev('DECIMAL(BASE(v_n,v_r),v_r)', v_n=m, v_r=r)
+                    self.expect('C17/DECIMAL(BASE(n,r),r):power-of-radix', d == m, n=m, radix=r, text=t, got=d)
+                    rec.nt(('pow', m, r))
+                    n += 1
+                k += 1
+        for k in range(0, 10):
+            for m in (16 ** k - 1, 16 ** k, 16 ** k + 1, -(16 ** k), -(16 ** k) - 1, -(16 ** k) + 1):
+                if LO40 <= m < HI40:
+                    b = self.ev('HEX2DEC(DEC2HEX(v_n))', v_n=m)
+                    self.expect('C17/HEX2DEC(DEC2HEX(n)):power-of-16', b == m, n=m, got=b)
+                    rec.nt(('hexpow', m))
+        rec.count('powers_enumerated', n)
+        rec.sample({'n': 1000, 'radix': 10, 'expected_text': '1000'})
+
     def c_roman(self, spec, rec):
         for n in range(spec['lo'], spec['hi']):
             for form in range(5):
@@ -301,9 +328,11 @@ class Check(FormulaCheck):
         why = []
         if merged['counts'].get('roman_enumerated', 0) != 3999:
             why.append('ROMAN sweep incomplete: %s' % merged['counts'].get('roman_enumerated', 0))
+        if merged['counts'].get('powers_enumerated', 0) < 500:
+            why.append('power-of-radix sweep incomplete: %s' % merged['counts'].get('powers_enumerated', 0))
         if len(merged['cover'].get('functions_step_counted', ())) < 15:
             why.append('step counter reached only %s' % sorted(merged['cover'].get('functions_step_counted', ())))
         return why
 
     def extra(self, merged):
-        return {'exhaustive_subspace': 'ROMAN(n,form) for all n in 1..3999 x forms 0..4, and ARABIC(ROMAN(n))'}
+        return {'exhaustive_subspace': 'ROMAN(n,form) for all n in 1..3999 x forms 0..4, and ARABIC(ROMAN(n)); BASE/DECIMAL on every r^k, r^k+-1 < 2^39 for radix 2..36'}
